@@ -13,6 +13,9 @@
 //! inst also has `open` (drop + Installation::open WITHOUT initialize) and `init` (initialize()),
 //! arch has `anew` (a new ArchiveManager WITHOUT open_all).
 //! A payload is written `<hex prefix> <fill byte> <n>` = prefix followed by n copies of fill.
+//! Besides the random histories: fill cases (one index bucket's update section through its page
+//! and capacity boundaries) and sorted-section size cases (one bucket's flushed entries across
+//! the 64 KiB / 128 KiB alignment boundary of the update section in its `.idx` file), see below.
 use cascette_client_storage::container::{AccessMode, Container, DynamicContainer, ResidencyContainer};
 use cascette_client_storage::index::update::{ENTRIES_PER_PAGE, MIN_UPDATE_SECTION_SIZE, UPDATE_PAGE_SIZE, UPDATE_SECTION_ALIGNMENT};
 use cascette_client_storage::storage::local_header::LOCAL_HEADER_SIZE;
